@@ -44,13 +44,24 @@ func (eval Evaluator) EvaluateMany(ctIn *rlwe.Ciphertext, linearTransformations 
 
 	ctPreRot := map[int]*rlwe.Element[ringqp.Poly]{}
 
+	// The giant steps of MultiplyByDiagMatrixBSGS (GadgetProductLazy) use BuffDecompQP as scratch space:
+	// the hoisted decomposition of ctIn must be recomputed before it is used again.
+	var decompositionOverwritten bool
+
 	for i, lt := range linearTransformations {
+
+		if decompositionOverwritten {
+			eval.DecomposeNTT(levelQ, levelP, levelP+1, ctIn.Value[1], ctIn.IsNTT, BuffDecompQP)
+			decompositionOverwritten = false
+		}
 
 		if lt.N1 == 0 {
 			if err = eval.MultiplyByDiagMatrix(ctIn, lt, BuffDecompQP, opOut[i]); err != nil {
 				return
 			}
 		} else {
+
+			decompositionOverwritten = true
 
 			_, _, rotN2 := lt.BSGSIndex()
 
